@@ -145,4 +145,31 @@ def run (isRetryable : Int → Bool) (cfg : Cfg α) (ev : List (Nat × In α)) :
   if cfg.preCancelled then ⟨.cancelled, 0, [.cancelNotif], [], 0⟩
   else loop isRetryable cfg 0 ev [.request] [] 0
 
+/-! ## Several requests sharing one cancellation token
+
+A `CancellationToken` is an object of the caller; nothing stops the caller from passing the same
+token to several requests (a group of calls cancelled together, a retry after a cancelled call).
+`send_message` keeps everything else per call, so each request behaves as a request of its own
+whose token state is read off the shared token at ITS start: already cancelled when the token
+fired at or before the start, firing `fire - start` ticks into the wait otherwise. -/
+
+/-- the configuration of a request that starts at absolute tick `start` and is given a token that
+fires at absolute tick `fire` (`none`: never) -/
+def withToken (cfg : Cfg α) (fire : Option Nat) (start : Nat) : Cfg α :=
+  match fire with
+  | none => { cfg with preCancelled := false, cancelAt := none }
+  | some f =>
+    if f ≤ start then { cfg with preCancelled := true, cancelAt := none }
+    else { cfg with preCancelled := false, cancelAt := some (f - start) }
+
+/-- consecutive requests with one shared token: `(configuration, idle ticks before the next
+request, history relative to this request's start)`; the result pairs each request's absolute
+start tick with its observation (times relative to that start) -/
+def runSeq (isRetryable : Int → Bool) (fire : Option Nat) :
+    Nat → List (Cfg α × Nat × List (Nat × In α)) → List (Nat × Obs α)
+  | _, [] => []
+  | start, (cfg, gap, ev) :: rest =>
+    let o := run isRetryable (withToken cfg fire start) ev
+    (start, o) :: runSeq isRetryable fire (start + o.time + gap) rest
+
 end Verif.Model.Await
